@@ -112,7 +112,8 @@ def storage_files(snapshot, storage_rel):
 
 
 def matches(ref, name):
-    m = re.fullmatch(r"([0-9a-fA-F]*)\*?(\.[a-zA-Z0-9]*)", ref)
+    # parsed more liberally than the tool does (any suffix): whatever reference ends up in a test file must resolve
+    m = re.fullmatch(r"([0-9a-fA-F]*)\*?(\..*)", ref)
     if not m:
         return False
     h, sfx = m.groups()
@@ -256,7 +257,7 @@ def run_history(rng, args, out, C, hidx, script=None):
                         ref = ast.literal_eval(arg[len("external(") : -1])
                         data = payload_bytes(t["payload"][0])
                         full = sha(data)
-                        m = re.fullmatch(r"([0-9a-fA-F]*)\*?(\.[a-zA-Z0-9]*)", ref)
+                        m = re.fullmatch(r"([0-9a-fA-F]*)\*?(\..*)", ref)
                         if not m or not full.startswith(m.group(1)):
                             continue  # reference belongs to older data (pending fix)
                         if len(m.group(1)) < 6:
